@@ -316,6 +316,9 @@ def run(spec):
             sys.path.insert(0, d)
             sys.modules.pop("c12livemod", None)
             importlib.invalidate_caches()
+            import linecache
+
+            linecache.clearcache()
             mod = importlib.import_module("c12livemod")
             if op == "parse_live_emit_rest":
                 ir = parse.function(mod.lookup)
